@@ -18,7 +18,9 @@
 (*    80  stmt2, first line      <T12a>                                    *)
 (*    90  stmt2, second line     <T12b>                                    *)
 (*   100  <S13> comment row                                                *)
-(*   110  stmt3                  <T13>                                     *)
+(*   110  stmt3                  <T13>             1080 <D5> comment row   *)
+(*                                                 1090 var g5 = ... <TD5> *)
+(*                                                 (last decl of file 2)   *)
 (*   120  <E1>  comment row (last thing in the block)                      *)
 (*   130  }                      <TD1>                                     *)
 (*   140  <D2>  comment row                                                *)
@@ -58,31 +60,32 @@ Mid(k) == k \notin {"IMM01", "IMM03"}           \* anchored after the first toke
 TwoLine(k) == k \in {"CTOR01", "CTOR03", "TONL01", "TONL02", "PKGO02"}   \* stmt2 has an anchor on its second line too
 Once(k) == k \in {"TONL01", "PKGO01"}
 
-Anchors(k) == {"a11", "a12", "a13", "a2", "a31", "b1"} \cup (IF TwoLine(k) THEN {"a12b"} ELSE {})
+Anchors(k) == {"a11", "a12", "a13", "a2", "a31", "b1", "b5"} \cup (IF TwoLine(k) THEN {"a12b"} ELSE {})
 
 Row(a) == CASE a = "a11" -> 60 [] a = "a12" -> 80 [] a = "a12b" -> 90 [] a = "a13" -> 110 [] a = "a2" -> 150
-            [] a = "a31" -> 190 [] a = "b1" -> 1060
-PosOf(a, k) == Row(a) + (IF Mid(k) \/ a \in {"a2", "a12b"} THEN 5 ELSE 0)
+            [] a = "a31" -> 190 [] a = "b1" -> 1060 [] a = "b5" -> 1090
+PosOf(a, k) == Row(a) + (IF Mid(k) \/ a \in {"a2", "a12b", "b5"} THEN 5 ELSE 0)
 FileOf(p) == IF p >= 1000 THEN 2 ELSE 1
-DeclOf(a) == CASE a \in {"a11", "a12", "a12b", "a13"} -> 1 [] a = "a2" -> 2 [] a = "a31" -> 3 [] a = "b1" -> 4
+DeclOf(a) == CASE a \in {"a11", "a12", "a12b", "a13"} -> 1 [] a = "a2" -> 2 [] a = "a31" -> 3 [] a = "b1" -> 4 [] a = "b5" -> 5
 StmtOf(a) == CASE a = "a11" -> 11 [] a \in {"a12", "a12b"} -> 12 [] a = "a13" -> 13 [] a = "a31" -> 31 [] OTHER -> 0
 
 \* source order of the anchors of a file (for the once-per-file rule)
 Before(a, b, k) == FileOf(PosOf(a, k)) = FileOf(PosOf(b, k)) /\ PosOf(a, k) < PosOf(b, k)
 
-Slots == {"none", "F0", "G0", "D1", "D2", "D3", "S11", "S12", "S13", "S31", "E1",
-          "T11", "T12a", "T12b", "T13", "T31", "TD1", "TD2"}
+Slots == {"none", "F0", "G0", "D1", "D2", "D3", "D5", "S11", "S12", "S13", "S31", "E1",
+          "T11", "T12a", "T12b", "T13", "T31", "TD1", "TD2", "TD5"}
 SlotPos(s) == CASE s = "F0" -> 10 [] s = "G0" -> 1010 [] s = "D1" -> 30 [] s = "D2" -> 140 [] s = "D3" -> 160
                 [] s = "S11" -> 50 [] s = "S12" -> 70 [] s = "S13" -> 100 [] s = "S31" -> 180 [] s = "E1" -> 120
                 [] s = "T11" -> 69 [] s = "T12a" -> 89 [] s = "T12b" -> 99 [] s = "T13" -> 119 [] s = "T31" -> 199
-                [] s = "TD1" -> 139 [] s = "TD2" -> 159 [] s = "none" -> 0
-Trailing(s) == s \in {"T11", "T12a", "T12b", "T13", "T31", "TD1", "TD2"}
+                [] s = "TD1" -> 139 [] s = "TD2" -> 159 [] s = "D5" -> 1080 [] s = "TD5" -> 1099 [] s = "none" -> 0
+Trailing(s) == s \in {"T11", "T12a", "T12b", "T13", "T31", "TD1", "TD2", "TD5"}
 
 \* structure
 DeclSpan(d) == CASE d = 1 -> <<40, 131>> [] d = 2 -> <<150, 158>> [] d = 3 -> <<170, 201>> [] d = 4 -> <<1040, 1071>>
+                 [] d = 5 -> <<1090, 1098>>
 StmtSpan(s) == CASE s = 11 -> <<60, 68>> [] s = 12 -> <<80, 98>> [] s = 13 -> <<110, 118>> [] s = 31 -> <<190, 198>>
 PackagePos(f) == IF f = 1 THEN 20 ELSE 1020
-FileEnd(f) == IF f = 1 THEN 210 ELSE 1080
+FileEnd(f) == IF f = 1 THEN 210 ELSE 1100
 LineStart(p) == (p \div 10) * 10
 
 (* code lists: abstract tokens relative to the diagnostic code c of the kind *)
@@ -102,7 +105,7 @@ ListMatches(l, c) == \E i \in 1..Len(l) : Norm(l[i], c) # "" /\ Matches(Norm(l[i
 InScope(s, a, k) ==
   CASE s = "F0" -> FileOf(PosOf(a, k)) = 1
     [] s = "G0" -> FileOf(PosOf(a, k)) = 2
-    [] s = "D1" -> DeclOf(a) = 1 [] s = "D2" -> DeclOf(a) = 2 [] s = "D3" -> DeclOf(a) = 3
+    [] s = "D1" -> DeclOf(a) = 1 [] s = "D2" -> DeclOf(a) = 2 [] s = "D3" -> DeclOf(a) = 3 [] s = "D5" -> DeclOf(a) = 5
     [] s = "S11" -> StmtOf(a) = 11 [] s = "S12" -> StmtOf(a) = 12 [] s = "S13" -> StmtOf(a) = 13 [] s = "S31" -> StmtOf(a) = 31
     [] s = "E1" -> FALSE
     [] Trailing(s) -> LineStart(PosOf(a, k)) = LineStart(SlotPos(s))
@@ -131,14 +134,14 @@ CEnd == SlotPos(sc.slot)      \* the comment ends on its own row; nothing follow
 CFile == FileOf(CPos)
 
 \* the top-level declaration whose span contains p, or 0
-Enclosing(p) == IF \E d \in 1..4 : DeclSpan(d)[1] <= p /\ p <= DeclSpan(d)[2]
-                THEN CHOOSE d \in 1..4 : DeclSpan(d)[1] <= p /\ p <= DeclSpan(d)[2] ELSE 0
+Enclosing(p) == IF \E d \in 1..5 : DeclSpan(d)[1] <= p /\ p <= DeclSpan(d)[2]
+                THEN CHOOSE d \in 1..5 : DeclSpan(d)[1] <= p /\ p <= DeclSpan(d)[2] ELSE 0
 \* the first top-level declaration of the comment's file that starts after p, or 0
-NextDecl(p) == LET ds == {d \in 1..4 : FileOf(DeclSpan(d)[1]) = FileOf(p) /\ DeclSpan(d)[1] > p}
+NextDecl(p) == LET ds == {d \in 1..5 : FileOf(DeclSpan(d)[1]) = FileOf(p) /\ DeclSpan(d)[1] > p}
                IN IF ds = {} THEN 0 ELSE CHOOSE d \in ds : \A e \in ds : DeclSpan(d)[1] <= DeclSpan(e)[1]
 \* a declaration that ends on the comment's row, before the comment
-DeclEndingOnRow(p) == IF \E d \in 1..4 : LineStart(DeclSpan(d)[2]) = LineStart(p) /\ DeclSpan(d)[2] < p
-                      THEN CHOOSE d \in 1..4 : LineStart(DeclSpan(d)[2]) = LineStart(p) /\ DeclSpan(d)[2] < p ELSE 0
+DeclEndingOnRow(p) == IF \E d \in 1..5 : LineStart(DeclSpan(d)[2]) = LineStart(p) /\ DeclSpan(d)[2] < p
+                      THEN CHOOSE d \in 1..5 : LineStart(DeclSpan(d)[2]) = LineStart(p) /\ DeclSpan(d)[2] < p ELSE 0
 \* the first statement that starts after p inside declaration d, or 0
 NextStmt(p, d) == LET ss == {s \in {11, 12, 13, 31} : StmtSpan(s)[1] > p /\ StmtSpan(s)[1] >= DeclSpan(d)[1] /\ StmtSpan(s)[2] <= DeclSpan(d)[2]}
                   IN IF ss = {} THEN 0 ELSE CHOOSE s \in ss : \A t \in ss : StmtSpan(s)[1] <= StmtSpan(t)[1]
